@@ -185,3 +185,143 @@ func C05Loopback(tc *C05LoopCase) (string, map[string]any) {
 	}
 	return "", detail
 }
+
+// ---- connection histories over real sockets ----------------------------------------------------------------
+// C05History relays a SEQUENCE of independent connections in this process through RelayTCPContext (the relay
+// core handleConn ends in) over real loopback TCP, so state the copy paths keep between connections (pooled
+// splice pipes, pooled buffers) is carried from one connection to the next. Behaviours:
+//   N  healthy 200 KiB up / 150 KiB down with half-close       n  healthy 100 B up / 50 B down
+//   S  upstream never reads; the client uploads until it stalls; then the relay is cancelled
+//   D  client never reads; the upstream sends until it stalls; then the relay is cancelled
+//   R  upstream resets (SO_LINGER 0 close) while the client is uploading
+// Oracle, per connection: what a peer received is exactly (healthy) or a prefix of (aborted) what ITS OWN other
+// side sent. Timeouts are never violations (returned as inconclusive).
+func C05History(hist []string, id int) (sig string, inconclusive bool, detail map[string]any) {
+	detail = map[string]any{"history": fmt.Sprint(hist)}
+	pat := func(tag string, n int) []byte {
+		b := make([]byte, 0, n+64)
+		for i := 0; len(b) < n; i++ {
+			b = append(b, fmt.Sprintf("[%d.%s:%07d]", id, tag, i)...)
+		}
+		return b[:n]
+	}
+	isTimeout := func(err error) bool {
+		ne, ok := err.(net.Error)
+		return ok && ne.Timeout()
+	}
+	for step, beh := range hist {
+		tag := fmt.Sprintf("%s%d", beh, step)
+		client, left, err := lbPair()
+		if err != nil {
+			return "", true, detail
+		}
+		right, upstream, err := lbPair()
+		if err != nil {
+			client.Close()
+			left.Close()
+			return "", true, detail
+		}
+		closeAll := func() { client.Close(); left.Close(); right.Close(); upstream.Close() }
+		ctx, cancel := context.WithCancel(context.Background())
+		done := make(chan error, 1)
+		go func() { done <- RelayTCPContext(ctx, left, right) }()
+		waitDone := func() bool {
+			select {
+			case <-done:
+				return true
+			case <-time.After(20 * time.Second):
+				return false
+			}
+		}
+		where := fmt.Sprintf("history=%v step=%d(%s)", hist, step, beh)
+		switch beh {
+		case "N", "n":
+			upN, downN := 200<<10, 150<<10
+			if beh == "n" {
+				upN, downN = 100, 50
+			}
+			up, down := pat(tag+"-up", upN), pat(tag+"-down", downN)
+			type res struct {
+				b   []byte
+				err error
+			}
+			gotUp := make(chan res, 1)
+			go func() {
+				upstream.SetDeadline(time.Now().Add(30 * time.Second))
+				b, err := io.ReadAll(upstream)
+				gotUp <- res{b, err}
+				upstream.Write(down)
+				upstream.CloseWrite()
+			}()
+			client.SetDeadline(time.Now().Add(30 * time.Second))
+			_, werr := client.Write(up)
+			client.CloseWrite()
+			gotDown, rerr := io.ReadAll(client)
+			u := <-gotUp
+			ok := waitDone()
+			cancel()
+			closeAll()
+			if isTimeout(werr) || isTimeout(rerr) || isTimeout(u.err) || !ok {
+				return "", true, detail
+			}
+			if !bytes.Equal(u.b, up) {
+				return fmt.Sprintf("conn-history %s: %s", where, classify("client->upstream", up, u.b)), false, detail
+			}
+			if !bytes.Equal(gotDown, down) {
+				return fmt.Sprintf("conn-history %s: %s", where, classify("upstream->client", down, gotDown)), false, detail
+			}
+		case "S", "D":
+			src, sink := client, upstream
+			if beh == "D" {
+				src, sink = upstream, client
+			}
+			chunk := pat(tag+"-stall", 64<<10)
+			var sent []byte
+			for len(sent) < 64<<20 {
+				src.SetWriteDeadline(time.Now().Add(300 * time.Millisecond))
+				n, err := src.Write(chunk)
+				sent = append(sent, chunk[:n]...)
+				if err != nil {
+					break
+				}
+			}
+			cancel()
+			ok := waitDone()
+			src.Close()
+			// whatever the sink can still read must be a prefix of what its own peer sent
+			sink.SetReadDeadline(time.Now().Add(2 * time.Second))
+			got, _ := io.ReadAll(io.LimitReader(sink, int64(len(sent))+1))
+			closeAll()
+			if !ok {
+				return "", true, detail
+			}
+			if len(got) > len(sent) || !bytes.Equal(got, sent[:len(got)]) {
+				return fmt.Sprintf("conn-history %s: aborted connection: the receiver got bytes that are not a prefix of what its peer sent", where), false, detail
+			}
+		case "R":
+			chunk := pat(tag+"-rst", 64<<10)
+			go func() {
+				b := make([]byte, 4096)
+				upstream.SetReadDeadline(time.Now().Add(5 * time.Second))
+				upstream.Read(b)
+				upstream.SetLinger(0)
+				upstream.Close()
+			}()
+			for i := 0; i < 64; i++ {
+				client.SetWriteDeadline(time.Now().Add(300 * time.Millisecond))
+				if _, err := client.Write(chunk); err != nil {
+					break
+				}
+			}
+			client.CloseWrite()
+			ok := waitDone()
+			cancel()
+			closeAll()
+			if !ok {
+				return "", true, detail
+			}
+		}
+		cancel()
+	}
+	return "", false, detail
+}
